@@ -1,7 +1,8 @@
 ----------------------------- MODULE Format_Trace -----------------------------
 (* Trace validation for C02 / C03: format_trace.ndjson holds one line per recorded behaviour of
    the REAL parser and formatter (written by harness/fmtcore.go):
-     {"ty":"fmt", ...a FormatLaws record...}       one source text run through both modes twice
+     {"ty":"fmt", ...a FormatLaws record...}       one source text run through both modes twice, by one route
+                                                   (ast / repl / line / modify, see FormatLaws)
      {"ty":"fn", "id":n, "d0":.., "ok":.., "dI":.., "t":.., "ok2":.., "t2":..}  one function value printed by Inspect / SaveGlobals
      {"ty":"sess","id":n,"outs":[bytes,..]}        every byte string observed for ONE (input, mode)
                                                    over all replayed histories and processes
